@@ -198,3 +198,34 @@ M('C10', 'oriented-walk-direction', AHF, "                if i == self.circles.l
 M('C10', 'reverse-circles-order-only', AHF, "    stations.iter_mut().for_each(|i| i.reverse_in_place());\n", "", 'reverse_inscribed_circles')
 M('C10', 'inscribed-reversed-keeps-contacts', 'src/airfoil/inscribed_circle.rs', "            self.contact_neg,\n            self.contact_pos,\n            self.circle,", "            self.contact_pos,\n            self.contact_neg,\n            self.circle,", 'InscribedCircle::reversed')
 M('C10', 'full-curve-never-reversed', AHF, "        if self.reversed {\n            Ok(curve.reversed())\n        } else {\n            Ok(curve)\n        }", "        if !self.reversed {\n            Ok(curve.reversed())\n        } else {\n            Ok(curve)\n        }", 'get_full_curve')
+
+# ---------------------------------------------------------------- C01
+C2F = 'src/geom2/curve2.rs'
+C3F = 'src/geom3/curve3.rs'
+M('C01', 'at_length-ge-guard', C2F, "        if length < 0.0 || length > self.length() {\n            None\n        } else {\n            let search = self\n                .lengths\n                .binary_search_by(|a|", "        if length < 0.0 || length >= self.length() {\n            None\n        } else {\n            let search = self\n                .lengths\n                .binary_search_by(|a|", 'at_length:range')
+M('C01', 'at_length3-clamp', C3F, "        if length < 0.0 || length > self.length() {\n            None\n        } else {\n            let search = self\n                .lengths\n                .binary_search_by(|l| l.partial_cmp(&length).unwrap());", "        let length = length.clamp(0.0, self.length());\n        if length < 0.0 || length > self.length() {\n            None\n        } else {\n            let search = self\n                .lengths\n                .binary_search_by(|l| l.partial_cmp(&length).unwrap());", 'at_length')
+M('C01', 'at_length3-wrong-dir-edge', C3F, "                    let dir = self.dir_of_edge(index);\n                    let remaining = length - self.lengths[index];", "                    let dir = self.dir_of_edge(next_index.min(self.count() - 2));\n                    let remaining = length - self.lengths[index];", 'Curve3::at_length:direction')
+M('C01', 'at_length-drop-offset', C2F, "                    let remaining_len = length - self.lengths[index];", "                    let remaining_len = length;", 'Curve2::at_length')
+M('C01', 'at_vertex3-last-rule', C3F, "        let (i, f) = if index == self.line.vertices().len() - 1 {\n            (index - 1, 1.0)", "        let (i, f) = if index == self.line.vertices().len() - 1 {\n            (index - 1, 0.0)", 'Curve3::at_vertex:last-vertex-rule')
+M('C01', 'length_along-wrong-next', C2F, "        l[self.index] + (l[self.index + 1] - l[self.index]) * self.fraction", "        l[self.index] + (l[self.index + 1] - l[0]) * self.fraction", 'CurveStation2::length_along')
+M('C01', 'lengths3-not-cumulative', C3F, "            lengths.push(lengths[i] + d);", "            lengths.push(lengths[0] + d);", 'Curve3::from_points:lengths')
+M('C01', 'lengths2-signed-increment', C2F, "            let d = dist(&v[i + 1], &v[i]);\n            lengths.push(d + lengths.last().unwrap_or(&0.0));", "            let d = v[i + 1].x - v[i].x;\n            lengths.push(d + lengths.last().unwrap_or(&0.0));", 'Curve2::from_points:lengths')
+M('C01', 'closed-before-push', C2F, """        if let (true, Some(start), Some(end)) = (force_closed, pts.first(), pts.last()) {
+            if dist(start, end) > tol {
+                pts.push(*start);
+            }
+        }
+
+        let is_closed = pts.len() >= 2 && dist(&pts[0], pts.last().unwrap()) <= tol;
+""", """        let is_closed = pts.len() >= 2 && dist(&pts[0], pts.last().unwrap()) <= tol;
+        if let (true, Some(start), Some(end)) = (force_closed, pts.first(), pts.last()) {
+            if dist(start, end) > tol {
+                pts.push(*start);
+            }
+        }
+""", 'Curve2::from_points:is_closed')
+M('C01', 'lengths-mut-accessor', C2F, "    pub fn tol(&self) -> f64 {\n        self.tol\n    }\n\n    fn dir_of_edge", "    pub fn tol(&self) -> f64 {\n        self.tol\n    }\n\n    pub fn lengths_mut(&mut self) -> &mut Vec<f64> {\n        &mut self.lengths\n    }\n\n    fn dir_of_edge", 'no-mut-handout')
+M('C01', 'at_fraction3-no-scale', C3F, "        self.at_length(fraction * self.length())", "        self.at_length(fraction)", 'Curve3::at_fraction')
+M('C01', 'dir_of_vertex-seam-wrong-edge', C2F, "            let d1 = self.dir_of_edge(v.len() - 2).into_inner();\n            // TODO: this will fail on a curve that doubles back, use angles?\n            Unit::new_normalize(d0 + d1)\n        } else if is_first {", "            let d1 = self.dir_of_edge(1).into_inner();\n            // TODO: this will fail on a curve that doubles back, use angles?\n            Unit::new_normalize(d0 + d1)\n        } else if is_first {", 'Curve2::dir_of_vertex')
+M('C01', 'search-comparator-reversed', C2F, "                .binary_search_by(|a| a.partial_cmp(&length).unwrap());\n            match search {\n                Ok(index) => Some(self.at_vertex(index)),", "                .binary_search_by(|a| length.partial_cmp(a).unwrap());\n            match search {\n                Ok(index) => Some(self.at_vertex(index)),", 'Curve2::at_length:comparator')
+M('C01', 'neutral-at_length-temps', C3F, "                    let index = next_index - 1;\n                    let dir = self.dir_of_edge(index);\n                    let remaining = length - self.lengths[index];\n                    let f = remaining / (self.lengths[index + 1] - self.lengths[index]);", "                    let index = next_index - 1;\n                    let l0 = self.lengths[index];\n                    let l1 = self.lengths[index + 1];\n                    let dir = self.dir_of_edge(index);\n                    let remaining = length - l0;\n                    let f = remaining / (l1 - l0);", kind='neutral')
